@@ -64,11 +64,12 @@ Definition self_insert_bind : bind_t := (s_self_insert, false).
 Definition inserts_text (t : table) : bool :=
   existsb (fun e => eqlZ (fst e) [97] && eqlZ (fst (snd e)) s_self_insert) t.
 
-(* the keys are the complete, valid UTF-8 encoding of one character (not U+FFFD) *)
+(* the keys are the complete, valid UTF-8 encoding of one character (U+FFFD itself
+   included: only an invalid byte decodes to U+FFFD with width 1) *)
 Definition utf8_char (keys : list Z) : bool :=
   match keys with
   | [] => false
-  | k0 :: r => let '(c, w) := decode1 k0 r in full_rune keys && negb (c =? rune_error) && (w =? length keys)%nat
+  | k0 :: r => let '(c, w) := decode1 k0 r in full_rune keys && negb ((c =? rune_error) && (w =? 1)%nat) && (w =? length keys)%nat
   end.
 
 (* matchBind: the table scan, then - in a keymap where characters insert themselves -
